@@ -496,6 +496,15 @@ def run(ck):
     exprs += [mul(neg(A), neg(B)), neg(mul(A, B)), mul(A, B), mul(neg(A), B), mul(A, neg(B)), mul(neg(neg(A)), B), neg(mul(neg(A), B)),
               mul(mul(neg(A), neg(B)), neg(C3)), neg(mul(mul(A, B), C3)), mul(mul(A, B), C3), mul(mul(neg(A), neg(B)), C3), mul(neg(A), mul(neg(B), neg(C3))),
               ("bin", "Add", mul(neg(A), neg(B)), C3), ("bin", "Add", neg(mul(A, B)), C3)]
+    # ... and sums: every spelling of +-a +-b (+-c) with the signs inside / outside parentheses, as they stand, as a factor and as
+    # an argument (-(a + b) is not a - b, a - (b - c) is not a - b - c)
+    add = lambda x, y: ("bin", "Add", x, y)  # noqa: E731
+    sub = lambda x, y: ("bin", "Sub", x, y)  # noqa: E731
+    sums = [add(A, B), sub(A, B), sub(B, A), neg(add(A, B)), neg(sub(A, B)), add(neg(A), B), sub(neg(A), B), add(neg(A), neg(B)), add(A, neg(B)),
+            sub(neg(add(A, B)), C3), sub(sub(A, B), C3), sub(A, sub(B, C3)), sub(A, add(B, C3)), add(neg(add(A, B)), C3), sub(C3, add(A, B)),
+            sub(sub(neg(A), B), C3), neg(add(add(A, B), C3)), add(sub(A, B), C3), sub(add(A, C3), B), neg(sub(sub(A, B), C3))]
+    exprs += sums
+    exprs += [mul(("const", 2), x) for x in sums[:9]] + [("call", "abs", [x]) for x in sums[:9]]
     for base in (2, 3):
         for ex in (("var", "a"), ("const", 2), ("const", 3)):
             exprs += [neg(("bin", "Pow", ("const", base), ex)), ("bin", "Pow", neg(("const", base)), ex),      # -(2 ** t) and (-2) ** t
